@@ -174,9 +174,12 @@ def render_verilog(nl, lib, seed, simple=False, modname='top'):
             alias[src] = chain
             if st.pick(2): wire_decl.append((chain[0], None))
 
+    onebit = {f'{bn}[{rng[0]}]': bn for bn, rng in pi_decls + po_decls if rng is not None and rng[0] == rng[1]}
+
     def plain(n):
         if n.startswith('h/'): return esc(n)
         if n.startswith('w1_'): return n if st.pick(2) else n + '[0]'
+        if n in onebit and not simple and st.pick(2): return onebit[n]      # one-bit port bus [k:k] referenced without index
         return n
 
     def ref(src):
@@ -196,7 +199,10 @@ def render_verilog(nl, lib, seed, simple=False, modname='top'):
     def decl(kind, items):
         for nm, rng in items:
             r = '' if rng is None else f'[{rng[0]}{st.sp()}:{st.sp()}{rng[1]}] ' if rng[0] != rng[1] or st.pick(2) else f'[{rng[0]}] '
-            decl_stmts.append(f'{kind} {r}{nm}{st.sp()};')
+            kw = kind
+            if not simple and kind == 'wire' and st.pick(4) == 0: kw = 'tri'            # same meaning for a gate-level netlist
+            if not simple and kind == 'input' and st.pick(6) == 0: kw = 'inout'         # documented: treated as input
+            decl_stmts.append(f'{kw} {r}{nm}{st.sp()};')
     decl('input', pi_decls); decl('output', po_decls); decl('wire', wire_decl)
     inst_names = {}
     insts = []          # what was instantiated: name, cell, {input pin: src}, {output pin: src}
@@ -281,7 +287,29 @@ def render_verilog(nl, lib, seed, simple=False, modname='top'):
                 k_ = st.pick(3)
                 if whole and k_ == 0: return base
                 if k_ <= 1: return f'{base}[{idx[0]}{st.sp()}:{st.sp()}{idx[-1]}]'
-        return '{' + f'{st.sp()},{st.sp()}'.join(names) + '}'
+        return '{' + f'{st.sp()},{st.sp()}'.join(runs(names, decls)) + '}'
+
+    def runs(names, decls):
+        """items of a concatenation: runs of consecutive bits of one declared bus may be written as a part select or, when they cover the bus, by its bare name"""
+        import re as _re
+        out, i = [], 0
+        while i < len(names):
+            m = _re.match(r'^(\w+)\[(\d+)\]$', names[i])
+            rng = decls.get(m[1]) if m else None
+            j = i + 1
+            if rng is not None and rng[0] != rng[1] and not simple:
+                step = 1 if rng[0] <= rng[1] else -1
+                while j < len(names):
+                    m2 = _re.match(r'^(\w+)\[(\d+)\]$', names[j])
+                    if not m2 or m2[1] != m[1] or int(m2[2]) != int(m[2]) + (j - i) * step: break
+                    j += 1
+                if j - i >= 2 and st.pick(3):
+                    lo, hi = int(m[2]), int(m[2]) + (j - i - 1) * step
+                    out.append(m[1] if (lo, hi) == tuple(rng) and st.pick(2) else f'{m[1]}[{lo}{st.sp()}:{st.sp()}{hi}]')
+                    i = j
+                    continue
+            out.append(names[i]); i += 1
+        return out
 
     todo = [k for k in range(len(nl['po'])) if k not in bound_po]
     assigns = []
@@ -312,7 +340,8 @@ def render_verilog(nl, lib, seed, simple=False, modname='top'):
             rnames = [net[nl['po'][j]] if nl['po'][j][0] == 'i' else None for j in grp]
             rhs = compact(rnames, dict(pi_decls)) if all(r is not None for r in rnames) and st.pick(2) else None
             if rhs is None or rhs.startswith('{'):
-                rhs = '{' + f'{st.sp()},{st.sp()}'.join(ref(nl['po'][j]) for j in grp) + '}'
+                items = [ref(nl['po'][j]) for j in grp]
+                rhs = '{' + f'{st.sp()},{st.sp()}'.join(runs(items, dict(pi_decls + wire_decl))) + '}'
             assigns.append(f'assign {lhs}{st.sp()}={st.sp()}{rhs};')
     for w_ in wire_decl_late:
         decl_stmts.append(f'wire {w_};')
